@@ -183,6 +183,16 @@ func runC12(res *Result, tier string, seed int64, replay string) {
 		}}
 		docs = append(docs, doc{"entities:empty-elements", nd, nd.MJML()})
 	}
+	// raw content that ends in a void element written without "/" (the XML layer closes it with an end token of its own), the
+	// mj-raw being the LAST child of its column / section / body: with and without white space between the end tags
+	{
+		nd := &Node{Tag: "mjml", Kids: []*Node{
+			{Tag: "mj-body", Kids: []*Node{{Tag: "mj-section", Kids: []*Node{{Tag: "mj-column", Kids: []*Node{
+				{Tag: "mj-text", Text: "before"}, {Tag: "mj-raw", Text: `<p>r</p><br>`}}}, {Tag: "mj-raw", Text: `<img src="i.png">`}}},
+				{Tag: "mj-raw", Text: `tail<hr>`}}},
+		}}
+		docs = append(docs, doc{"entities:raw-last-child-ends-in-void", nd, nd.MJML()})
+	}
 	rws := rewrites()
 	// sequential: documents carry different heads (see C07)
 	for i, d := range docs {
